@@ -30,8 +30,9 @@ NameEnd(p, o, total) ==
          ELSE NameEnd(p, o + 1 + l, total + 1 + l)
 
 (* the implementation's reading of a name: everything up to the first NUL  *)
-RECURSIVE NulEnd(_, _)
-NulEnd(p, o) == IF o + 1 > Len(p) THEN -1 ELSE IF p[o + 1] = 0 THEN o + 1 ELSE NulEnd(p, o + 1)
+NulEnd(p, o) ==
+    LET z == { k \in (o + 1)..Len(p) : p[k] = 0 } IN
+    IF z = {} THEN -1 ELSE CHOOSE k \in z : \A m \in z : k <= m
 
 (* does the name [o, e) contain a zero byte before its terminator?  *)
 PlainName(p, o) == NameEnd(p, o, 0) # -1 /\ NameEnd(p, o, 0) = NulEnd(p, o)
